@@ -10,6 +10,9 @@ Serializer call, strings hex-encoded UTF-8):
   ["cs",[fragment..]]            collect_str of a Display that writes these fragments
   ["hr",v_human,v_compact]       a Serialize impl branching on is_human_readable()
   ["net",kind,octets_hex,port]   std::net: kind v4 v6 ip4 ip6 sa4 sa6
+  ["json",j]                     a serde_json::Value, j = null | ["jb",bool] | ["ju","u64"] |
+                                 ["ji","negative i64"] | ["jf","f64 bits (finite)"] | ["js",hex] |
+                                 ["ja",[j..]] | ["jo",[[keyhex,j]..]] (members inserted in this order)
 """
 import struct
 
@@ -122,8 +125,10 @@ class Gen:
     def leaf(self):
         r = self.rng
         k = r.choice(["b", "i", "i", "f32", "f64", "c", "s", "s", "s", "y", "none", "unit", "us", "uv",
-                      "cs", "cs", "net"])
+                      "cs", "cs", "net", "json", "json"])
         self.count("leaf:" + k)
+        if k == "json":
+            return ["json", self.json_value(r.choice([0, 1, 2, 3]))]
         if k == "cs":
             return self.collect()
         if k == "net":
@@ -164,6 +169,42 @@ class Gen:
                 frags.append(self.string(r.choice([2, 4, 10, 30])))
         return ["cs", [hx(f) for f in frags]]
 
+    def json_number(self):
+        r = self.rng
+        k = r.choice(["ju", "ju", "ji", "jf", "jf"])
+        self.count("json:" + k)
+        if k == "ju":
+            return ["ju", str(r.choice([0, 1, 10, 255, 2**32, 2**53, 2**63 - 1, 2**63, 2**64 - 1,
+                                        r.randrange(0, 1000), r.getrandbits(r.randrange(1, 65))]))]
+        if k == "ji":
+            return ["ji", str(-r.choice([1, 10, 128, 2**31, 2**53, 2**63, r.randrange(1, 1000),
+                                         1 + r.getrandbits(r.randrange(1, 64))]))]
+        while True:
+            bits = r.choice([r.choice(F64_SPECIAL), r.getrandbits(64),
+                             struct.unpack("<Q", struct.pack("<d", r.randrange(-10**6, 10**6) / r.choice([1, 8, 10, 1000])))[0]])
+            if not nonfinite64(bits):
+                return ["jf", str(bits)]
+
+    def json_value(self, depth):
+        """a serde_json::Value (free-form varlink parameters)"""
+        r = self.rng
+        k = r.choice(["n", "n", "n", "null", "jb", "js", "ja", "jo", "jo"] if depth > 0 else
+                     ["n", "n", "n", "null", "jb", "js"])
+        if k == "n":
+            return self.json_number()
+        self.count("json:" + k)
+        if k == "null":
+            return None
+        if k == "jb":
+            return ["jb", r.random() < 0.5]
+        if k == "js":
+            return ["js", hx(self.string())]
+        n = r.choice([0, 1, 2, 3, 4])
+        if k == "ja":
+            return ["ja", [self.json_value(depth - 1) for _ in range(n)]]
+        return ["jo", [[hx(r.choice(["a", "b", "id", "name", "a"]) if r.random() < 0.6 else self.string(6)),
+                        self.json_value(depth - 1)] for _ in range(n)]]
+
     def net(self):
         r = self.rng
         kind = r.choice(["v4", "v6", "ip4", "ip6", "sa4", "sa6"])
@@ -180,8 +221,11 @@ class Gen:
     # ------------------------------------------------------------ keys
     def good_key(self, depth=0):
         r = self.rng
-        k = r.choice(["s", "s", "s", "c", "i", "i", "uv", "ns", "cs", "cs", "net", "hr"])
+        k = r.choice(["s", "s", "s", "c", "i", "i", "uv", "ns", "cs", "cs", "net", "hr", "json"])
         self.count("key:" + k)
+        if k == "json":
+            return ["json", r.choice([["js", hx(self.string())], ["ju", str(r.randrange(0, 2**64))],
+                                      ["ji", str(-r.randrange(1, 2**63))]])]
         if k == "cs":
             return self.collect()
         if k == "net":
@@ -204,8 +248,11 @@ class Gen:
     def bad_key(self):
         r = self.rng
         k = r.choice(["b", "f32", "f64", "y", "none", "unit", "us", "some", "nv", "seq", "tup", "ts",
-                      "tv", "map", "st", "sv", "ns-bad", "hr-bad"])
+                      "tv", "map", "st", "sv", "ns-bad", "hr-bad", "json-bad"])
         self.count("badkey:" + k)
+        if k == "json-bad":
+            return ["json", r.choice([None, ["jb", True], ["jf", str(0x3FF8000000000000)], ["ja", []],
+                                      ["jo", [[hx("a"), ["ju", "1"]]]]])]
         if k == "hr-bad":
             return ["hr", ["unit"], ["s", hx("fine-if-compact")]]
         if k == "b":
@@ -383,6 +430,8 @@ def has_bad_key(t):
 def key_ok(t):
     if t[0] in ("s", "c", "i", "uv", "cs", "net"):
         return True
+    if t[0] == "json":
+        return t[1] is not None and t[1][0] in ("js", "ju", "ji")
     if t[0] == "ns":
         return key_ok(t[2])
     if t[0] == "hr":
@@ -493,7 +542,40 @@ def coq_sval(t, ftoks):
         return "(SHumanReadable %s %s)" % (coq_sval(t[1], ftoks), coq_sval(t[2], ftoks))
     if k == "net":
         return coq_net(t, ftoks)
+    if k == "json":
+        return coq_json(t[1], ftoks)
     raise ValueError("bad tree tag %r" % k)
+
+
+def coq_json(j, ftoks):
+    """The calls serde_json's Serialize impls for Value issue (serde_json-1.0.145 value/ser.rs:11-36,
+    number.rs:369-380 without arbitrary_precision): Null -> serialize_unit, Bool -> serialize_bool,
+    Number -> serialize_u64 / serialize_i64 (negative) / serialize_f64, String -> serialize_str,
+    Array (a Vec) -> serialize_seq(Some(len)), Object -> serialize_map(Some(len)) with the String
+    keys in the order of the Map: a BTreeMap (feature preserve_order is off), i.e. sorted by the
+    UTF-8 bytes of the key, a repeated key keeping its last value."""
+    if j is None:
+        return "SUnit"
+    k = j[0]
+    if k == "jb":
+        return "(SBool %s)" % ("true" if j[1] else "false")
+    if k == "ju":
+        return "(SInt U64 (%s)%%Z)" % j[1]
+    if k == "ji":
+        return "(SInt I64 (%s)%%Z)" % j[1]
+    if k == "jf":
+        return "(SF64 %s)" % cfval("f64", int(j[1]), ftoks)
+    if k == "js":
+        return "(SStr %s)" % cb(j[1])
+    if k == "ja":
+        return "(SSeq (Some %d) [%s])" % (len(j[1]), "; ".join(coq_json(x, ftoks) for x in j[1]))
+    if k == "jo":
+        members = {}
+        for key, x in j[1]:
+            members[bytes.fromhex(key)] = x
+        return "(SMap (Some %d) [%s])" % (len(members), "; ".join(
+            "(SStr %s, %s)" % (cb(key.hex()), coq_json(members[key], ftoks)) for key in sorted(members)))
+    raise ValueError("bad json tag %r" % (j,))
 
 
 def coq_net(t, ftoks):
